@@ -350,7 +350,7 @@ def backend_backlog_scenario(sid, fillers=10, small=5200):
     return {"id": sid, "role": "", "steps": steps}
 
 
-def slow_reader_quit_scenario(sid, bigsize=700000, nslow=1, quit=True, drains=3):
+def slow_reader_quit_scenario(sid, bigsize=700000, nslow=1, quit=True, drains=3, parked=False):
     """A client that does not read a large reply, then pipelines requests whose node is slow (and QUIT), then reads: the
     proxy's outbound buffer for the client runs empty while those requests are still in flight.  Every reply is still
     owed, in order, and the connection is closed only after the reply to QUIT."""
@@ -360,12 +360,17 @@ def slow_reader_quit_scenario(sid, bigsize=700000, nslow=1, quit=True, drains=3)
     tail = [req(["GET", "@0"], ("B",)) for _ in range(nslow)] + ([{"k": "quit", "slots": [], "args": [], "dups": []}] if quit else [])
     steps = [step([_st(op="pause", c="c1"), _st(op="send", c="c1", reqs=[req(["GET", "@0"])])]),
              step([_st(op="answer", n="n1", kind="raw", hex=big.hex())]), step([_st(op="sleep", count=20)]),
-             step([_st(op="send", c="c1", reqs=tail)]),
-             step([_st(op="resume", c="c1")])]
+             step([_st(op="send", c="c1", reqs=tail)])]
+    answers = [step([_st(op="answer", n="n2", kind="raw", hex=resp_bulk(b"slow-%d" % k).hex())]) for k in range(nslow)]
+    if parked:
+        # the slow replies (and with them the +OK of QUIT) arrive while the client still does not read: everything is
+        # parked behind the large reply, and the connection may only be closed when all of it has been sent
+        steps += answers + [step([])]
+        answers = []
+    steps.append(step([_st(op="resume", c="c1")]))
     # the client reads what has arrived; the proxy's EPOLLOUT handler pushes the next part; and so on
     steps += [step([_st(op="readsome", c="c1", count=bigsize // 2 + 1000)]) for _ in range(drains + 3)]
-    for k in range(nslow):
-        steps.append(step([_st(op="answer", n="n2", kind="raw", hex=resp_bulk(b"slow-%d" % k).hex())]))
+    steps += answers
     steps.append(step([]))
     steps.append(step([_st(op="answer", n=n, kind="ok", count=3) for n in ("n1", "n2")]))
     return {"id": sid, "role": "", "steps": steps}
